@@ -29,7 +29,7 @@ EXTENDS LayoutPipeOps, TLC, Json
 CONSTANTS
   Mode,        \* "layout" | "find" | "kern"
   Gen,         \* TRUE: emit cases
-  CmapMenu,    \* sequence of [hasFull, full, hasBmp, bmp]
+  CmapMenu,    \* sequence of cmap tables (sequences of subtables [p, e, ok, kind, m])
   WidthMenu,   \* sequence of width vectors (index = glyph id + 1)
   MarkMenu,    \* sequence of mark-glyph sequences (<<>> = no GDEF)
   PlanMenu,    \* sequence of [gl, gf, gs, pl, pf, ps, k]: sizes of the tables to build
@@ -67,10 +67,10 @@ Init ==
   /\ phase = "build" /\ sec = 1
   /\ plan \in ToSet(PlanMenu)
   /\ \E c \in ToSet(CmapMenu), w \in ToSet(WidthMenu), m \in ToSet(MarkMenu) :
-       F = [hasFull |-> c.hasFull, full |-> c.full, hasBmp |-> c.hasBmp, bmp |-> c.bmp,
+       F = [cm |-> c,
             widths |-> w, marks |-> m, gsub |-> NoTable, gpos |-> NoTable, kern |-> NoKern,
             read |-> FALSE]
-  /\ rd = <<"min", "req">>
+  /\ rd = <<"min", "req", "nolig">>
   /\ chG = <<>> /\ chP = <<>> /\ cur = NoLay /\ stage = "idle" /\ txt = <<>> /\ buf = <<>>
   /\ calls = <<>>
 
@@ -117,27 +117,26 @@ Build ==
                                    subs |-> Append(@.subs, [horiz |-> fl.horiz, min |-> fl.min, cross |-> fl.cross,
                                                             over |-> fl.over, pairs |-> ps])]]
 
-\* a table without language systems is no table; a kern table exists only in a file; a
-\* fixed-pitch file without GSUB is outside the property (it speaks of proportional fonts)
+\* a table without language systems is no table; a kern table exists only in a file
 Seal ==
   /\ phase = "build" /\ sec = 8
   /\ \E r \in BOOLEAN :
        /\ F.kern.present => r
        /\ Mode = "find" => ~r               \* FindLookups is called on the table, no file involved
-       /\ (r /\ ~F.gsub.present) => Proportional(F.widths)
        /\ F' = [F EXCEPT !.read = r,
                          !.gsub = IF @.present THEN @ ELSE NoTable,
                          !.gpos = IF @.present THEN @ ELSE NoTable]
        \* the readings that make a difference for this file
        /\ rd' \in {x \in Readings :
                     /\ x[1] = "over" => \E k \in 1..Len(F.kern.subs) : F.kern.subs[k].min /\ F.kern.subs[k].over
-                    /\ x[2] = "opt" => (r /\ ~F.gsub.present)}
+                    /\ x[2] = "opt" => (r /\ ~F.gsub.present)
+                    /\ x[3] = "lig" => (r /\ ~F.gsub.present /\ ~Proportional(F.widths))}
   /\ phase' = "api"
   /\ UNCHANGED <<sec, plan, chG, chP, cur, stage, txt, buf, calls>>
 
 ---------------------------------------------------------------------------
 (* The API. *)
-G == EffGsub(F, rd[2])
+G == EffGsub(F, rd[2], rd[3])
 P == EffGpos(F, rd[1])
 CandT(T) == IF T.present THEN Cand(T.sl) ELSE {0}
 
